@@ -198,6 +198,17 @@ fn gen(s: &mut Src, exh: u32, kind: Kind) -> Case {
             0
         });
     }
+    // Long streams, drawn after the regular events (earlier encodings keep their meaning): one case in eight offers 10..63
+    // more events over the same span, so that windows, buffers and anything sorted or chunked by the implementation
+    // hold more than a couple of dozen elements.
+    if s.chance(1, 8) {
+        let extra = 10 + s.below(54);
+        for _ in 0..extra {
+            ts.push(base + s.below(width) as u64);
+            pays.push((gen_pay(s), if kind == Kind::Agg { gen_pay(s) } else { Pay::Missing }));
+            lags.push(0);
+        }
+    }
     match order {
         0 => ts.sort(),
         1 => {
@@ -444,6 +455,9 @@ fn classify_tumbling(case: &Case, ctx: &mut Ctx, tag: &str) {
     let w = case.d;
     let evs = &case.evs;
     ctx.label(order_label(case));
+    if case.evs.len() > 20 {
+        ctx.label("long-stream(>20-events)");
+    }
     if case.d > 25 {
         ctx.label("wide-scale-duration(>25ms)");
     }
@@ -687,6 +701,9 @@ pub fn run_tw(s: &mut Src, ctx: &mut Ctx) -> Verdict {
         prev = cur;
     }
     ctx.label(order_label(&case));
+    if case.evs.len() > 20 {
+        ctx.label("long-stream(>20-events)");
+    }
     if case.d > 25 {
         ctx.label("wide-scale-duration(>25ms)");
     }
@@ -794,6 +811,9 @@ pub fn run_record(s: &mut Src, ctx: &mut Ctx) -> Verdict {
         prev = cur;
     }
     ctx.label(order_label(&case));
+    if case.evs.len() > 20 {
+        ctx.label("long-stream(>20-events)");
+    }
     if case.d > 25 {
         ctx.label("wide-scale-duration(>25ms)");
     }
@@ -954,6 +974,9 @@ pub fn run_san(s: &mut Src, ctx: &mut Ctx) -> Verdict {
     }
     ctx.label(if case.tumbling { "tumbling" } else { "sliding" });
     ctx.label(order_label(&case));
+    if case.evs.len() > 20 {
+        ctx.label("long-stream(>20-events)");
+    }
     if case.d > 25 {
         ctx.label("wide-scale-duration(>25ms)");
     }
